@@ -289,6 +289,7 @@ class Emitter:
         k = e[0]
         if k == "num": return (str(e[1]), e[2])
         if k == "var":
+            if e[1] in ("true", "false") and e[1] not in self.env: return ("1" if e[1] == "true" else "0", BOOL)
             if e[1] not in self.env: raise TranslateError("unknown identifier %r" % e[1])
             return (lean_ident(e[1]), self.env[e[1]])
         if k == "cast":
